@@ -16,6 +16,34 @@ from ..rules import assigns_to_attr, calls_in
 COMPUTE = 'mininec.Mininec.compute'
 
 
+def check_total_power(ctx, ck):
+    m = ctx.model
+    # decided on the symbolic walk of compute() (method-name tables, getattr, private helpers resolved;
+    # an accumulator loop and sum(generator) have the same normal form)
+    from ..symx import SymExec, canon_k
+    f = m.func(COMPUTE)
+    paths = [p_ for p_ in SymExec(ctx, f, bind_loops=True, private_only=True, max_paths=2000).run() if p_.end != 'raise']
+    ck.floor('paths through compute', len(paths), 1)
+    vals = set()
+    after = True
+    for p_ in paths:
+        st_i = [i_ for i_, ev in enumerate(p_.events) if ev[0] == 'store' and ev[1] == 'self.power']
+        sv_i = [i_ for i_, ev in enumerate(p_.events) if ev[0] == 'call' and isinstance(ev[1].func, ast.Attribute)
+                and ev[1].func.attr == 'compute_currents' and norm(ev[1].func.value) == 'self']
+        if len(st_i) != 1:
+            vals.add('self.power is stored %d times' % len(st_i))
+            after = False
+            continue
+        vals.add(canon_k(norm(p_.events[st_i[0]][2])))
+        after = after and len(sv_i) == 1 and sv_i[0] < st_i[0]
+    ok = vals == {'sum(_each(self.sources[_k0].power, self.sources))'}
+    ck.ob('R-DEP.total-power', COMPUTE + '|sum-over-all-sources', ok, f.loc(),
+          'self.power = sum of the power of every source' if ok else
+          'self.power = %s is not the sum of the power of every source' % sorted(vals)[0][:150])
+    ck.ob('R-DEP.total-power', COMPUTE + '|after-solve', after, f.loc(), 'total power is evaluated after compute_currents()')
+
+
+
 def run(ctx, ck):
     m = ctx.model
     ck.rule('R-DEP.total-power', 'self.power = sum of the power of all sources, after the solve')
@@ -25,43 +53,7 @@ def run(ctx, ck):
     ck.rule('R-DEP.current-lookup', 'Excitation.current = parent.current[idx]')
     ck.rule('R-SIB.weight', 'load weight == source weight (series element)')
 
-    f = m.func(COMPUTE)
-    fl = ctx.flow(f)
-    asg = assigns_to_attr(f, 'self.power')
-    if len(asg) != 1:
-        raise AnalysisError('Mininec.compute assigns self.power %d times' % len(asg))
-    a = asg[0]
-    v = fl.inline(a.value, fl.node_id_of(a))
-    ok, why = False, 'self.power = %s' % norm(v)
-    agg = None
-    if isinstance(v, ast.Call) and (dotted(v.func) or '') in ('sum', 'np.sum', 'math.fsum', 'fsum') and v.args:
-        agg = v.args[0]
-    if isinstance(agg, (ast.GeneratorExp, ast.ListComp)):
-        g = agg.generators
-        ok = len(g) == 1 and norm(g[0].iter) == 'self.sources' and not g[0].ifs and \
-            isinstance(agg.elt, ast.Attribute) and agg.elt.attr == 'power' and \
-            isinstance(g[0].target, ast.Name) and norm(agg.elt.value) == g[0].target.id
-        if not ok:
-            why = 'aggregation is %s: not the power of every source' % norm(agg)
-    elif isinstance(a.value, ast.Name):
-        # accumulation loop:  p = 0 ; for s in self.sources: p += s.power
-        nm = a.value.id
-        ds = fl.def_exprs(nm, fl.node_id_of(a))
-        augs = [d for d in ds if d[0] == 'aug']
-        inits = [d for d in ds if d[0] == 'assign']
-        if len(augs) == 1 and len(inits) == 1 and norm(inits[0][1]) in ('0', '0.0'):
-            st = augs[0][1]
-            from ..model import parent
-            lp = parent(st)
-            ok = isinstance(lp, ast.For) and norm(lp.iter) == 'self.sources' and isinstance(st.op, ast.Add) and \
-                isinstance(st.value, ast.Attribute) and st.value.attr == 'power' and \
-                norm(st.value.value) == norm(lp.target)
-    else:
-        why = 'self.power = %s is not an aggregation over self.sources' % norm(v)
-    ck.ob('R-DEP.total-power', COMPUTE + '|sum-over-all-sources', ok, f.loc(a), why)
-    cc = calls_in(f.node, attr='compute_currents')
-    ok = len(cc) == 1 and fl.cfg.must_pass(fl.node_id_of(a), {fl.node_id_of(cc[0])})
-    ck.ob('R-DEP.total-power', COMPUTE + '|after-solve', ok, f.loc(a), 'total power is evaluated after compute_currents()')
+    check_total_power(ctx, ck)
 
     from .C10 import check_dbi_normalisation
     check_dbi_normalisation(ctx, ck)
@@ -69,10 +61,10 @@ def run(ctx, ck):
     check_nearfield_power_scaling(ctx, ck)
     from .C07 import check_power_formula, single_return
     check_power_formula(ctx, ck)
+    from .C07 import current_lookup
     g = m.func('mininec.Excitation.current')
-    r = single_return(g)
-    ok = r is not None and norm(ctx.flow(g).inline(r.value)) == 'self.parent.current[self.idx]'
-    ck.ob('R-DEP.current-lookup', g.qual, ok, g.loc(), 'source current is the solved current on the feed pulse')
+    ok, why_ = current_lookup(ctx)
+    ck.ob('R-DEP.current-lookup', g.qual, ok, g.loc(), 'source current is the solved current on the feed pulse: ' + why_)
     from .C08 import check_weights
     check_weights(ctx, ck)
     ck.undecided += ['the 1.5 % balance between source, dissipated and radiated power (numeric integration)',
